@@ -17,7 +17,7 @@ fn pragma_precedence<const COMMENT: bool, const OPTION: bool>() {
     assert!(v.vue_imports.get("createVNode").is_some() == (!COMMENT && !OPTION), "C15: createVNode is imported only when no pragma names another factory");
     std::mem::forget(p); std::mem::forget(v);
 }
-macro_rules! pp_h { ($($n:ident: $a:expr, $b:expr;)*) => { $(#[kani::proof] #[kani::unwind(8)] #[kani::stub(std::ptr::drop_in_place, no_drop)] #[kani::stub(core::ptr::drop_glue, no_glue)] #[kani::stub(alloc::fmt::format, fmt_marker)] fn $n() { pragma_precedence::<$a, $b>() })* } }
+macro_rules! pp_h { ($($n:ident: $a:expr, $b:expr;)*) => { $(#[kani::proof] #[kani::unwind(8)] #[kani::stub(std::ptr::drop_in_place, no_drop)] #[kani::stub(core::ptr::drop_glue, no_glue)] #[kani::stub(std::vec::Vec::extend_from_slice, extend_from_slice_model)] #[kani::stub(alloc::fmt::format, fmt_marker)] fn $n() { pragma_precedence::<$a, $b>() })* } }
 pp_h! { pragma_none: false, false; pragma_option: false, true; pragma_comment: true, false; pragma_comment_over_option: true, true; }
 
 fn pragma_comment_rule<const T: u8>() {
@@ -36,14 +36,14 @@ fn pragma_comment_rule<const T: u8>() {
     }
     std::mem::forget(v);
 }
-macro_rules! pc_h { ($($n:ident: $a:expr;)*) => { $(#[kani::proof] #[kani::unwind(24)] #[kani::stub(std::ptr::drop_in_place, no_drop)] #[kani::stub(core::ptr::drop_glue, no_glue)] fn $n() { pragma_comment_rule::<$a>() })* } }
+macro_rules! pc_h { ($($n:ident: $a:expr;)*) => { $(#[kani::proof] #[kani::unwind(24)] #[kani::stub(std::ptr::drop_in_place, no_drop)] #[kani::stub(core::ptr::drop_glue, no_glue)] #[kani::stub(std::vec::Vec::extend_from_slice, extend_from_slice_model)] fn $n() { pragma_comment_rule::<$a>() })* } }
 pc_h! { pragmac_plain: 0; pragmac_jsdoc: 1; pragmac_custom: 2; pragmac_unrelated: 3; pragmac_importsource: 4; pragmac_frag: 5; pragmac_runtime: 6;
         pragmac_noname: 7; pragmac_noname_star: 8; pragmac_trailing_words: 9; pragmac_multiline: 10; }
 
 // ---------------- C02: JSX text child is dropped iff it cleans to the empty string ----------------
 pub static mut TT_EMPTY: bool = false;
 pub fn tt_oracle(_text: &str) -> String { if unsafe { TT_EMPTY } { String::new() } else { String::from("<tt>") } }
-#[kani::proof] #[kani::unwind(8)] #[kani::stub(std::ptr::drop_in_place, no_drop)] #[kani::stub(core::ptr::drop_glue, no_glue)] #[kani::stub(alloc::fmt::format, fmt_marker)]
+#[kani::proof] #[kani::unwind(8)] #[kani::stub(std::ptr::drop_in_place, no_drop)] #[kani::stub(core::ptr::drop_glue, no_glue)] #[kani::stub(std::vec::Vec::extend_from_slice, extend_from_slice_model)] #[kani::stub(alloc::fmt::format, fmt_marker)]
 #[kani::stub(crate::util::transform_text, tt_oracle)]
 fn jsx_text_empty_iff_dropped() {
     let empty: bool = kani::any();
@@ -64,7 +64,7 @@ fn jsx_text_empty_iff_dropped() {
 
 // ---------------- C20: only Vue's defineComponent ----------------
 fn call_to(callee: Box<Expr>) -> CallExpr { CallExpr { span: sp(9), callee: Callee::Expr(callee), args: Vec::new(), ..Default::default() } }
-#[kani::proof] #[kani::unwind(8)] #[kani::stub(std::ptr::drop_in_place, no_drop)] #[kani::stub(core::ptr::drop_glue, no_glue)]
+#[kani::proof] #[kani::unwind(8)] #[kani::stub(std::ptr::drop_in_place, no_drop)] #[kani::stub(core::ptr::drop_glue, no_glue)] #[kani::stub(std::vec::Vec::extend_from_slice, extend_from_slice_model)]
 fn define_component_identification() {
     let mut v = visitor(any_options());
     let recorded: bool = kani::any();
@@ -104,7 +104,7 @@ fn import_recording<const K: u8>() {
     if expect { assert!(v.define_component == Some(vue_ctxt), "C20: the recorded context is that of the import binding"); }
     std::mem::forget(d); std::mem::forget(v);
 }
-macro_rules! ir_h { ($($n:ident: $a:expr;)*) => { $(#[kani::proof] #[kani::unwind(8)] #[kani::stub(std::ptr::drop_in_place, no_drop)] #[kani::stub(core::ptr::drop_glue, no_glue)] fn $n() { import_recording::<$a>() })* } }
+macro_rules! ir_h { ($($n:ident: $a:expr;)*) => { $(#[kani::proof] #[kani::unwind(8)] #[kani::stub(std::ptr::drop_in_place, no_drop)] #[kani::stub(core::ptr::drop_glue, no_glue)] #[kani::stub(std::vec::Vec::extend_from_slice, extend_from_slice_model)] fn $n() { import_recording::<$a>() })* } }
 ir_h! { import_vue_named: 0; import_vue_named_second: 1; import_vue_aliased: 2; import_vue_renamed_other: 3; import_other_module: 4; import_vue_namespace: 5; import_vue_default: 6; import_vue_without: 7; }
 
 /// inject_define_component_option (C20): user options always win; spread argument lists are left alone.
@@ -140,6 +140,6 @@ fn inject<const SHAPE: u8>() {
     }
     std::mem::forget(call);
 }
-macro_rules! ij_h { ($($n:ident: $a:expr;)*) => { $(#[kani::proof] #[kani::unwind(4)] #[kani::stub(std::ptr::drop_in_place, no_drop)] #[kani::stub(core::ptr::drop_glue, no_glue)] fn $n() { inject::<$a>() })* } }
+macro_rules! ij_h { ($($n:ident: $a:expr;)*) => { $(#[kani::proof] #[kani::unwind(4)] #[kani::stub(std::ptr::drop_in_place, no_drop)] #[kani::stub(core::ptr::drop_glue, no_glue)] #[kani::stub(std::vec::Vec::extend_from_slice, extend_from_slice_model)] fn $n() { inject::<$a>() })* } }
 ij_h! { inject_no_options: 0; inject_other_key: 1; inject_same_ident_key: 2; inject_same_string_key: 3; inject_nonliteral_options: 4; inject_spread_args: 5; inject_literal_with_spread: 6; inject_shorthand_key: 7; }
 
